@@ -110,7 +110,7 @@ def run_property(a, ck):
     cases_all, codes_all = [], []
     corr_errors = []
     tags = collections.Counter()
-    stages = P.get("stages") or [{"harness": P["harness"], "corr": P["corr"], "n": P["n"]}]
+    stages = P.get("stages") or [{"harness": P["harness"], "corr": P["corr"], "n": P["n"], "shard": P.get("shard", 250)}]
     if not res["go_ok"]:
         corr_errors.append({"what": "go build of harness/hooks against /repo failed", "log": res["go_log"][-3000:]})
     else:
